@@ -187,6 +187,67 @@ func laCodec(c *Ctx, rule string) {
 			r.ok(rule, key, pos, fmt.Sprintf("writer %v <-> reader %v", comp.cases[k], rl))
 		}
 	}
+	// a streaming compressor is finished (Close) before the compressed bytes are taken from its destination
+	for _, k := range ks {
+		for _, ins := range caseRegionCalls(u, comp.fn, comp.blks[k]) {
+			call, ok := ins.(*ssa.Call)
+			if !ok {
+				continue
+			}
+			name := fullCalleeName(&call.Call)
+			if l, isLib := codecLib[name]; !isLib || !strings.HasSuffix(l, "+") || !strings.Contains(name, ".NewWriter") {
+				continue
+			}
+			key := fmt.Sprintf("%s codec %s stream completion", u.FnName(comp.fn), codecName(u, k))
+			r.count(rule+"/streams", 1)
+			var w ssa.Value = call
+			if ex := extractOf(call, 0); ex != nil {
+				w = ex
+			}
+			dst := call.Call.Args[0]
+			if mi, ok := dst.(*ssa.MakeInterface); ok {
+				dst = mi.X
+			}
+			var closes []*ssa.Call
+			var takes []*ssa.Call
+			for _, b := range call.Parent().Blocks {
+				for _, i2 := range b.Instrs {
+					c2, ok := i2.(*ssa.Call)
+					if !ok || c2 == call {
+						continue
+					}
+					args := callArgs(&c2.Call)
+					if sc := c2.Call.StaticCallee(); sc != nil && sc.Name() == "Close" && len(args) > 0 && args[0] == w {
+						closes = append(closes, c2)
+					}
+					if len(args) > 0 && args[0] == dst && dominatesInstr(call, c2) {
+						takes = append(takes, c2)
+					}
+				}
+			}
+			switch {
+			case len(closes) == 0:
+				r.bad(rule, key, u.Pos(call.Pos()), "the compressing writer is never closed: the last block and the trailer (checksum, length) of the stream are missing from the page body")
+			default:
+				okAll := true
+				for _, t := range takes {
+					dom := false
+					for _, cl := range closes {
+						if dominatesInstr(cl, t) {
+							dom = true
+						}
+					}
+					if !dom {
+						okAll = false
+						r.bad(rule, key, u.Pos(t.Pos()), "the destination buffer is read at "+u.Pos(t.Pos())+" before the compressing writer is closed: the page body lacks the end of the stream")
+					}
+				}
+				if okAll {
+					r.ok(rule, key, u.Pos(call.Pos()), fmt.Sprintf("Close precedes every use of the destination (%d)", len(takes)))
+				}
+			}
+		}
+	}
 	// every codec the reader accepts and the writer has no case for must be stored unchanged by the writer: UNCOMPRESSED only
 	for k, rl := range decomp.cases {
 		if _, ok := comp.cases[k]; ok {
@@ -417,6 +478,8 @@ func checkC04(c *Ctx) {
 	laOptMeta(c, "LA-optmeta")
 	laTrim(c, "LA-trim")
 	laPages(c, "LA-pages")
+	laNonNull(c, "LA-nonnull")
+	laSizes(c, "LA-sizes")
 	laReadCounter(c, "SR-count")
 	runTD(c, "TD", map[string]bool{"reader": true})
 	_, t, _ := srcAnalysis(c)
